@@ -136,6 +136,9 @@ type G2LConfig struct {
 	// different ways (so do go2lean_env.go, switched on by G2LEnvRegister, and the byte mode of go2lean_buffer.go);
 	// each is OFF unless the configuration asks for it, and a configuration asks for at most one of the four
 	// (G2LRun refuses more).  With none, a function without result is untranslated.
+	// go2lean_errfn.go (with Effects): the Lean type of errors and the templates of its two constructors; a function
+	// whose only result is `error` is then a definition in `Except ErrType` that returns its in-out parameters
+	ErrType, ErrMsg, ErrAt string
 	Effects bool // go2lean_effects.go: context parameters, effect loops, a function without result returns its in-out parameters alone (billcalcsrc.go)
 	Own     bool // go2lean_own.go: owned locals, cursors, a function without result returns Unit × its in-out parameters (taxtotalssrc.go)
 
